@@ -17,6 +17,7 @@ mod recoder;
 mod hasher;
 mod huff;
 mod metablock;
+mod fragment;
 
 fn main() {
     let args = util::parse_args();
@@ -36,6 +37,7 @@ fn main() {
         "hasher" => hasher::run_cmd(&args),
         "huff" => huff::run_cmd(&args),
         "metablock" => metablock::run_cmd(&args),
+        "fragment" => fragment::run_cmd(&args),
         "concat1" => concat::run_one(&args),
         other => {
             eprintln!("unknown subcommand {}", other);
